@@ -51,12 +51,3 @@ Definition c11_reg_case (txns : list (list bpost)) (pats : list re) (texts : lis
     end in
   ((if agree then 1 else 0) + (if spec_ok then 2 else 0)
    + (if in_domain (concat txns) then 4 else 0) + (if texts_ok pats texts then 8 else 0))%N.
-
-(* the matcher alone: which of the haystacks does the wrapped set match (bit k = haystack k) *)
-Fixpoint bits_of (l : list bool) : N :=
-  match l with
-  | [] => 0%N
-  | b :: l' => ((if b then 1 else 0) + 2 * bits_of l')%N
-  end.
-Definition c11_match_bits (pats : list re) (hays : list (list N)) : N :=
-  bits_of (map (full_haystack_set_is_match pats) hays).
